@@ -24,8 +24,8 @@ PROPS = {
              assumptions=["one driver per unit issues create/cancel/join/revive/free sequentially (cancel races with the target's execution, not with its own join); the cancel deadline is checked at ABT_thread_yield and at a suspend that is resumed through a pool, not for direct hand-over resumes"]),
     "C13": P(160000, 3000000, expect_reach=["c13.requests_checked_must_be_honoured", "c13.requests_overlapping_scheduling_point"],
              assumptions=["per unit, requests come either from the unit itself or from one issuer, so accepted requests are totally ordered; a request overlapping a scheduling point may be honoured at that point or the next"]),
-    "C14": P(160000, 3000000, expect_reach=["c14.translation_queries", "c14.units_created"],
-             assumptions=["unit handles are crafted integers that all hash to one bucket of the 256-entry table; translations are queried only for units that cannot move or be freed meanwhile (the caller's own unit, or a suspended ULT)"]),
+    "C14": P(160000, 3000000, expect_reach=["c14.translation_queries", "c14.units_created", "c14.handles_recycled"],
+             assumptions=["unit handles are crafted integers that all hash to one bucket of the 256-entry table, recycled LIFO in half of the runs; translations are queried only for units that cannot move or be freed meanwhile (the caller's own unit, or a suspended ULT)"]),
     "C15": P(160000, 3000000, expect_reach=["c15.mempool_allocs", "c15.mempool_cross_thread_frees"],
              assumptions=["the white-box driver uses ABTI_mem_pool_* exactly as abti_mem.h does (one local pool per simulated thread, blocks may be freed to any local pool of the same global pool)",
                           "stack sizes 16 KiB..2 MiB (+50%) in the quick tier, up to 16 MiB in the thorough tier; with stack guards enabled the two lowest pages are not written"]),
@@ -34,7 +34,7 @@ PROPS = {
     "C17": P(160000, 3000000, expect_reach=["c17.lin_decided"],
              assumptions=["each stream is freed / re-ranked only by the actor that created it; ABT_xstream_set_main_sched is applied to a joined stream or to the caller's own stream",
                           "rank histories <= 24 operations, search capped at 2e6 nodes"]),
-    "C18": P(16000, 300000, level="fault_enumeration", expect_reach=["c18.calls_failed_cleanly", "c18.routines_fully_enumerated"],
+    "C18": P(16000, 300000, level="fault_enumeration", expect_reach=["c18.calls_failed_cleanly", "c18.routines_fully_enumerated", "c18.create_unit_failures"],
              assumptions=["the failing allocation is one issued by the calling thread inside the routine under test (allocations made by a newly started stream on its own thread are not failed)",
                           "a call may succeed despite the injected failure when a documented fall-back exists (other large-page type, non-strict stack guard); it must then be complete"]),
     "C19": P(160000, 3000000, expect_reach=["c19.timeouts", "c19.signal_with_certain_waiter"],
